@@ -4,9 +4,10 @@
 Require Extraction.
 Require Import ExtrOcamlBasic ExtrOcamlZBigInt ExtrOcamlNatBigInt.
 From LZ4V Require Import Spec.BlockSpec Spec.BlockFast Spec.XXH32 Spec.FrameSpec.
-From LZ4V Require Import Gen.Consts Model.FrameD Model.FrameCtx.
+From LZ4V Require Import Gen.Consts Model.FrameD Model.FrameCtx Model.FrameDDict.
 Extraction Language OCaml.
 Extraction "lz4v.ml"
   spec_decode_fast spec_decode xxh32 frame_decode parse_desc header_bytes bsid_size
   dctx_init reset decompress decompress_usingDict getFrameInfo headerSize decodeHeader stage_num
-  cctx_init cbegin cend_ok.
+  cctx_init cbegin cend_ok
+  dd_init dd_reset dd_decompress dd_decompress_usingDict dd_getFrameInfo ops_okb.
